@@ -96,6 +96,7 @@ BS = ["zz_verif_bytestream.go"]
 BSB = "upload to blobs/<hash>/5 in <=%d messages, each of symbolic length 0..8; first write_offset any int64; later resource names empty/same/changed; finish_write on the last message or not; stream ends with EOF or a transport error; blob pre-existing or not; stub cache accepts iff exactly the declared bytes arrive; 3 goroutines, <=2 preemptions, every ready select case explored"
 h("VerifBytestreamWrite2", SV, BS, BSB % 2, "ByteStream.Write: committed_size, early return for existing blobs, refusal of malformed uploads, no goroutine left", unwind=24)
 h("VerifBytestreamWrite3", SV, BS, BSB % 3, "as VerifBytestreamWrite2", unwind=24, timeout_s=1800)
+h("VerifBytestreamWriteZstd2", SV, BS, "upload to compressed-blobs/zstd/<hash>/5 in <=2 messages of symbolic length; compressed stream decodes to a logical stream of symbolic length or is corrupt; first write_offset any int64; blob pre-existing or not", "ByteStream.Write (zstd): committed_size = bytes sent, -1 for existing blobs, acknowledgement only for a stored blob", unwind=24)
 h("VerifQueryWriteStatus", SV, BS, "-", "QueryWriteStatus: complete with full size exactly when present")
 
 KY = ["zz_verif_keys.go"]
@@ -134,7 +135,7 @@ P = {
  "C13": (["VerifGrpcBasicAuth", "VerifGrpcBasicAuthAccepts", "VerifGrpcMTLS", "VerifHTTPAuthWiring"], [], ["auth.CheckSecret is an arbitrary predicate", "strings are ASCII"], ["htpasswd hash checking, TLS handshake and certificate verification, LDAP", "whether grpc-go calls the interceptors for every method"]),
  "C14": (["VerifReadArbitrary2", "VerifGetCasZstd", "VerifGetSpecial"], ["VerifReadArbitrary3", "VerifGetCasZstdAsZstd", "VerifGetCasRawAsZstd", "VerifProxyGetCasZstd"], [FSM, CODEC], ["panics inside stubbed libraries", "resource exhaustion by volume"]),
  "C15": (["VerifGrpcACKeyMangling", "VerifLookupKey", "VerifGetSpecial"], [], ["sha256 is injective on byte strings (digest texts are fresh 64-hex strings with pairwise (content equal <=> digest equal))", "strings are ASCII", "disk.Cache replaced by a recording stub"], ["sha256 itself", "non-ASCII instance names", "isolation after eviction (C03/C04)", "the HTTP path-prefix clause: harnesses VerifParseRequestURL / VerifHTTPGrpcSameKey exist but no solver decides 'every URL /I/ac/h matches ^/?(.*/)?(ac/|cas/)([a-f0-9]{64})$ with instance I' within budget (cvc5 and z3 time out at 60 s even with |I| <= 6), so the URL grammar is not claimed"]),
- "C16": (["VerifBytestreamWrite2", "VerifQueryWriteStatus"], ["VerifBytestreamWrite3"], ["disk.Cache replaced by a contract stub (Put consumes the reader and accepts exactly the declared bytes)"], ["grpc-go's own stream behaviour", "more than 3 messages", "more than 2 preemptive context switches"]),
+ "C16": (["VerifBytestreamWrite2", "VerifBytestreamWriteZstd2", "VerifQueryWriteStatus"], ["VerifBytestreamWrite3"], ["disk.Cache replaced by a contract stub (Put consumes the reader and accepts exactly the declared bytes)"], ["grpc-go's own stream behaviour", "more than 3 messages", "more than 2 preemptive context switches"]),
  "C17": (["VerifLRUReserve3", "VerifLRURemove", "VerifLRUAdd3", "VerifPutAC", "VerifProxyGetAC"], ["VerifLRUReserve4", "VerifPutCasZstd", "VerifPutCasRaw", "VerifProxyGetCasRaw"], [FSM], ["real unlink latency"]),
  "C18": (["VerifPutAC", "VerifPutCasRaw", "VerifContains", "VerifProxyGetAC"], ["VerifPutCasZstd", "VerifProxyGetCasRaw", "VerifProxyGetCasZstd"], [FSM, HASH], ["transport-level message size limits"]),
  "C20": (["VerifWriteZstd2", "VerifReadUncompressed4", "VerifReadZstd4", "VerifReadIdentity"], ["VerifWriteZstd3", "VerifReadUncompressed6", "VerifReadZstd6"], [CODEC, FSM], ["that chunk payloads are standard zstd frames", "files with more table entries than the bound"]),
